@@ -32,6 +32,7 @@ Definition as_ev (s : sexp) : option ev :=
   | SList [SNum 9; k; n; hp; sg; dok; v; t] =>
       odo k <- as_num k ;; odo n <- as_name n ;; odo hp <- as_bool hp ;; odo sg <- as_num sg ;; odo dok <- as_bool dok ;;
       odo v <- as_num v ;; odo t <- as_num t ;; Some (Incoming k n hp sg dok v t)
+  | SList [SNum 10; own; t] => odo own <- as_bool own ;; odo t <- as_num t ;; Some (SetDefault own t)
   | _ => None
   end.
 Definition as_hist (s : sexp) : option (list (tie * ev)) := as_list_of (as_pair as_tie as_ev) s.
@@ -73,7 +74,12 @@ Definition run (req : sexp) : sexp :=
   | SList [SNum 2; fe; h; is] =>
       or_bad (odo fe <- as_fe fe ;; odo h <- as_hist h ;; odo is <- as_list_of as_num is ;;
               Some (s_list (fun i => s_istate (spec_state fe h i)) is))
-  (* specification: may this incoming Interest be delivered on a route with / without its own validator *)
+  (* specification: is an application-supplied validator in force on a route (with / without its own validator)
+     for an Interest dispatched after the history h *)
+  | SList [SNum 4; fe; hv; h] =>
+      or_bad (odo fe <- as_fe fe ;; odo hv <- as_bool hv ;; odo h <- as_hist h ;;
+              Some (s_bool (in_force fe hv (default_of h))))
+  (* specification: may this incoming Interest be delivered when an application-supplied validator is / is not in force *)
   | SList [SNum 3; fe; hv; SList [k; n; hp; sg; dok; v]] =>
       or_bad (odo fe <- as_fe fe ;; odo hv <- as_bool hv ;; odo k <- as_num k ;; odo n <- as_name n ;; odo hp <- as_bool hp ;;
               odo sg <- as_num sg ;; odo dok <- as_bool dok ;; odo v <- as_num v ;;
